@@ -74,6 +74,35 @@ def check(op, args, res, consts=None):
         for x, y in zip(a, r):
             if (x * y) % P != 1: return "x * batch_inverse(x) != 1 for x=%d" % x
         return None
+    import re as _re
+    _m = _re.match(r"ext([245])(add|sub|addassign|mulassign|sum|product|div|neg|double|scalarmul|frombase)$", op)
+    if _m:
+        D, what = int(_m.group(1)), _m.group(2)
+        x = [v % P for v in a[:D]]
+        y = [v % P for v in a[D:2 * D]] if len(a) >= 2 * D else None
+        if what in ("add", "addassign"): want = [(u + v) % P for u, v in zip(x, y)]
+        elif what == "sub": want = [(u - v) % P for u, v in zip(x, y)]
+        elif what == "sum": want = [(2 * u + v) % P for u, v in zip(x, y)]
+        elif what in ("mulassign", "product"): want = ext_mul(D, x, y, w[D])
+        elif what == "div":
+            got = [v % P for v in r]
+            back = ext_mul(D, got, y, w[D])
+            return None if back == x else "(a / b) * b = %s, a = %s" % (back, x)
+        elif what == "neg": want = [(-u) % P for u in x]
+        elif what == "double": want = [(2 * u) % P for u in x]
+        elif what == "scalarmul": want = [(u * a[D]) % P for u in x]
+        else: want = [a[0] % P] + [0] * (D - 1)
+        return None if r == want else "%s: got %s, specification %s" % (op, r, want)
+    if op == "div":
+        return None if (r[0] * a[1]) % P == a[0] % P else "(x / y) * y != x"
+    if op == "cube":
+        return None if r[0] == pow(a[0], 3, P) else "cube %d, x^3 = %d" % (r[0], pow(a[0], 3, P))
+    if op == "double":
+        return None if r[0] == (2 * a[0]) % P else "double"
+    if op == "exppow2":
+        return None if r[0] == pow(a[0], 2 ** a[1], P) else "exp_power_of_2"
+    if op == "mulu32":
+        return None if r == [a[0] % P, (a[0] * a[1]) % P] else "multiply by a u32 constant / multiply_accumulate with zeros"
     if op in ("ext2inv", "ext4inv", "ext5inv"):
         D = int(op[3])
         x = [v % P for v in a]
